@@ -150,6 +150,37 @@ inline std::vector<Case> all_cases(bool thorough)
                         c.prog = { stmt(sev, false, 'B', ta, 1), stmt(sev, true, 'B', tb, 2) };
                         cs.push_back(c);
                     }
+        // (vii) the thresholds change while a named stream is open
+        for (int e : { 0, 3 })
+            for (int t0 : { 0, 3, 5 })
+                for (int t1 : { 0, 3, 5 })
+                    for (int sev = 0; sev < 6; sev++)
+                        for (int tagged = 0; tagged < 2; tagged++)
+                        {
+                            Case c;
+                            c.expr = e;
+                            c.mode = 5;
+                            c.t[0] = t0;
+                            c.t[1] = e == 3 ? 2 : 0;
+                            c.t2[0] = t1;
+                            c.t2[1] = e == 3 ? 2 : 0;
+                            c.prog = { stmt(sev, tagged, 'B', { I_CALLA, I_LIT, I_CALLB, I_INT }, 1) };
+                            cs.push_back(c);
+                        }
+        // (viii) sizes: callables behind more than 64 KiB / 1 MiB of text in one statement
+        for (int nlong : { 14, 220 })
+            for (char form : { 'A', 'B' })
+            {
+                std::vector<int> items(nlong, I_LONG);
+                items.push_back(I_CALLA);
+                items.push_back(I_LIT);
+                items.push_back(I_CALLB);
+                Case c;
+                c.expr = 0;
+                c.t[0] = 1;
+                c.prog = { stmt(4, false, form, items, 1) };
+                cs.push_back(c);
+            }
         // (vi) sizes: statements with many items (every kind several times), programs of many statements
         for (int nitems : { 17, 40, 130 })
             for (int sev : { 0, 3, 5 })
